@@ -7,7 +7,7 @@ from .. import gen, putcheck, run, snap, spec, trashgen, trashio, world
 ID = 'C06'
 
 DEST = ['none', 'file', 'dir_empty', 'tree', 'link_file', 'link_dir',
-        'link_dangling', 'none']
+        'link_dangling', 'none', 'fifo', 'socket', 'chardev', 'link_self']
 
 
 def config(tier):
@@ -99,6 +99,11 @@ def gen_case(rng, index, tier):
             L.add({'p': loc, 't': 'l', 'to': '@/' + D + '/tgtd-' + dtag})
         elif dest == 'link_dangling':
             L.add({'p': loc, 't': 'l', 'to': 'nothing-' + dtag})
+        elif dest == 'link_self':
+            L.add({'p': loc, 't': 'l', 'to': os.path.basename(loc)})
+        elif dest in ('fifo', 'socket', 'chardev'):
+            # whatever occupies the name is an existing destination
+            L.add({'p': loc, 't': {'fifo': 'p', 'socket': 's', 'chardev': 'c'}[dest]})
         entries.append(e)
     case = L.desc()
     case['entries'] = entries
